@@ -33,6 +33,35 @@ Inductive vobs :=
 (* recorded parent_index of every node (Model_idx.v) before and after a rewrite *)
 Inductive iobs := IObsOk (after : itree) | IObsErr (e : err) (after : itree).
 
+(* what the repetition definitions of a volatile program evaluate to under given values of the volatile parameters: for
+   every node [] for a fixed count and one value per environment for a volatile count (the expression itself is not
+   observable, its values are) *)
+Inductive ptree := PNode (vals : list Z) (ch : list ptree).
+
+Fixpoint assoc {A} (k : N) (l : list (N * A)) : option A :=
+  match l with [] => None | (k', a) :: r => if N.eqb k k' then Some a else assoc k r end.
+
+Definition env_of (e : list (N * Z)) : N -> Z := fun i => match assoc i e with Some v => v | None => 0 end.
+
+Fixpoint probe (envs : list (list (N * Z))) (t : vtree) : ptree :=
+  match t with
+  | VNode r _ _ ch =>
+      PNode (match r with Fixed _ => [] | Volatile _ tag => map (fun e => eval_tag (env_of e) tag) envs end)
+            (map (probe envs) ch)
+  end.
+
+Fixpoint ptree_eqb (a b : ptree) : bool :=
+  match a, b with
+  | PNode v ch, PNode v' ch' =>
+      list_eqb Z.eqb v v' &&
+      (fix go (l : list ptree) (l' : list ptree) : bool :=
+         match l, l' with
+         | [], [] => true
+         | x :: t, y :: t' => ptree_eqb x y && go t t'
+         | _, _ => false
+         end) ch ch'
+  end.
+
 Inductive case :=
 | CRewrite (input : tree) (path : list nat) (o : opk) (impl : obs)
 | CSeq (input : tree) (prefix : list (list nat * opk)) (mid : tree) (path : list nat) (o : opk) (impl : obs)
@@ -41,10 +70,13 @@ Inductive case :=
 | CSpecOnly (input : tree) (path : list nat) (o : opk) (impl : obs)
        (* programs with volatile repetition counts: the model does not cover them (its split/merge decisions look at plain
           integers), so only the specification is evaluated on the implementation's observation *)
-| CVol (input : vtree) (path : list nat) (o : opk) (impl : vobs)
+| CVol (input : vtree) (path : list nat) (o : opk) (impl : vobs) (envs : list (list (N * Z))) (probes : ptree)
        (* volatile counts, rewrites modelled in Model_vol.v (unroll, unroll_children, encapsulate, split_one_child,
-          _merge_single_child, cleanup, flatten_and_balance): model = implementation incl. which counts are volatile
-          afterwards and the warning; make_compatible / roll_constant_waveforms: specification only *)
+          _merge_single_child, cleanup, flatten_and_balance, make_compatible, roll_constant_waveforms): model =
+          implementation incl. which counts are volatile afterwards and the VolatileModificationWarning.  [probes]: what
+          the implementation's repetition definitions evaluate to under each environment of [envs] AFTER the rewrite
+          (after a failed rewrite: of the unchanged program); compared with [probe envs] of the model's result.  With
+          [envs = []] only the shape is compared. *)
 | CIdx (input : itree) (path : list nat) (o : opk) (impl : iobs)
        (* unroll / unroll_children / encapsulate / split_one_child executed on the objects with their recorded
           parent_index (some inputs with two recorded indices swapped by hand: the invariant of C09 broken on purpose) *)
@@ -186,7 +218,7 @@ Fixpoint vnode_at (path : list nat) (t : vtree) : option vtree :=
 
 Definition with_warn {A} (r : result A) (w : bool) : result (A * bool) := bind r (fun a => Ok (a, w)).
 
-(* None: the rewrite is not modelled on volatile programs *)
+(* None: the rewrite is not modelled on volatile programs (no such rewrite is left) *)
 Definition run_vop (o : opk) (path : list nat) (t : vtree) : option (result (vtree * bool)) :=
   match o with
   | OUnroll =>
@@ -200,7 +232,8 @@ Definition run_vop (o : opk) (path : list nat) (t : vtree) : option (result (vtr
   | OMerge => Some (vat_path (fun n => with_warn (vmerge_single_child n) false) path t)
   | OCleanup rm mg => Some (vat_path (fun n => with_warn (vcleanup rm mg n) false) path t)
   | OFlatten d => Some (vat_path (vflatten_and_balance_w fab_fuel d) path t)
-  | OMakeCompat _ _ _ | ORoll _ _ _ => None
+  | OMakeCompat ml q sr => Some (vat_path (vmake_compatible_w ml q sr) path t)
+  | ORoll mq q sr => Some (vat_path (fun n => with_warn (vroll_constant_waveforms mq q sr n) false) path t)
   end.
 
 Definition vcorr_step (input : vtree) (path : list nat) (o : opk) (impl : vobs) : bool :=
@@ -283,7 +316,13 @@ Definition check_corr (c : case) : bool :=
       | Err _ => false
       end
   | CSpecOnly _ _ _ _ => true
-  | CVol input path o impl => vcorr_step input path o impl
+  | CVol input path o impl envs probes =>
+      vcorr_step input path o impl &&
+      match run_vop o path input with
+      | Some (Ok (t', _)) => ptree_eqb (probe envs t') probes
+      | Some (Err _) => ptree_eqb (probe envs input) probes
+      | None => true
+      end
   | CIdx input path o impl => icorr input path o impl
   | CDec input path o impl _ _ _ _ => corr_step input path o impl     (* the samples are no model claim: spec only *)
   | CToWf input impl => result_wf_eqb (to_waveform input) impl
@@ -354,9 +393,6 @@ Definition spec_step (vol : bool) (input : tree) (path : list nat) (o : opk) (im
 (* ---- decimal stream: exact voltage of channel 0 at time t (half-open pieces, junction belongs to the later piece) *)
 Definition dec_tol : Q := 1 # 1073741824.      (* 2^-30 *)
 
-Fixpoint assoc {A} (k : N) (l : list (N * A)) : option A :=
-  match l with [] => None | (k', a) :: r => if N.eqb k k' then Some a else assoc k r end.
-
 Fixpoint volt_at (ramps : list (N * (Q * Q))) (l : list piece) (t : Q) : option Q :=
   match l with
   | [] => None
@@ -408,7 +444,7 @@ Definition check_spec (c : case) : bool :=
       && spec_step false mid path o impl
   | CSpecOnly input path o impl => spec_step true input path o impl
   | CIdx input _ _ impl => ispec input impl
-  | CVol input path o impl => spec_step true (erase input) path o (erase_obs impl) && vspec_exact input path o impl
+  | CVol input path o impl _ _ => spec_step true (erase input) path o (erase_obs impl) && vspec_exact input path o impl
   | CDec input path o impl sr ramps before after =>
       spec_step false input path o impl && dec_samples_ok ramps input sr before && dec_samples_ok ramps input sr after
   | CToWf input impl =>
